@@ -129,7 +129,7 @@ def check_checks(cx, chk):
                                           "the value returned (%s) is not the value the check saw (%s)" % (mir.show(val), mir.show(ce[2][0][1])),
                                           cx.site(b, d0[0]))
                     chk.ok("C14.check", "%s/%s Ok path" % (inst.name, rule))
-    chk.floor("C14.check", "check failure sites", n_checks, 6)
+    chk.floor("C14.check", "check failure sites", n_checks, 3)
 
 
 def check_char_and_extern(cx, chk):
